@@ -114,6 +114,12 @@ Theorem sta_fields_in_ruler :
 Proof. exact sta_fields_in_ruler_l. Qed.
 Print Assumptions sta_fields_in_ruler.
 
+Theorem tms_fields_under_headers :
+  fields_in_ruler hdr_tms_est L_tms_est = true /\ fields_in_ruler hdr_tms_est L_tms_est1 = true /\
+  fields_in_ruler hdr_tms_refcoord L_tms_refcoord = true /\ fields_in_ruler hdr_tms_columns L_tms_columns = true.
+Proof. exact tms_fields_under_headers_l. Qed.
+Print Assumptions tms_fields_under_headers.
+
 (* ---- rows read by splitting on white space *)
 Theorem tokens_pieces : forall ps gend, Forall (fun p => is_token (snd p) = true) ps ->
   (split_ws (pieces_str ps gend) = map snd ps <-> gaps_ok ps = true).
